@@ -89,7 +89,7 @@ func Build(s *tspace.Schema, indexes map[string][]model.ClientIndex) (*Model, er
 		}
 		// two tables with the same columns must not share one Go type (the
 		// library keys its metadata by type): add an untagged marker field
-		fields = append(fields, reflect.StructField{Name: "XTable" + FieldName(t.Name), Type: reflect.TypeOf(struct{}{})})
+		fields = append(fields, reflect.StructField{Name: "XTable" + FieldName(t.Name), Type: reflect.TypeOf(false)})
 		st := reflect.StructOf(fields)
 		m.Types[t.Name] = st
 		models[t.Name] = reflect.New(st).Interface()
